@@ -12,7 +12,7 @@ From Coq Require Import List Bool Arith ZArith NArith Lia Permutation.
 From Coq.Strings Require Import Byte.
 From GR Require Import Base.Bytes Base.Res Base.Dec Codec.Schema Codec.Doc Codec.Escape Codec.Utf8 Codec.Json Codec.Tracker
   Codec.Render Codec.Encode Codec.Decode Proofs.EscapeProofs Gen.TablesCodec Proofs.Ror2NoPanic Proofs.Ror2RoundTrip
-  Proofs.MissingProofs.
+  Proofs.MissingProofs Proofs.DefaultsProofs.
 Import ListNotations.
 
 Local Notation rstr fl := (ror2_string v2_hex_chars v2_unescaped_path_chars v2_unescaped_query_chars v2_header_escaped_chars
@@ -1116,6 +1116,80 @@ Section ExactT.
       + intros E. rewrite field_of_eq in Hk. pose proof (proj1 (find_none_iff _ _) Hk fd Hin) as Hf. unfold keyp in Hf.
         rewrite <- E, bytes_eqb_refl in Hf. discriminate.
   Qed.
+  (* ---- a decision procedure for [well_shaped_t] (sound; used for the concrete witnesses) ---- *)
+  Fixpoint nodupb (l : list bytes) : bool :=
+    match l with [] => true | a :: r => negb (existsb (bytes_eqb a) r) && nodupb r end.
+  Lemma nodupb_sound l : nodupb l = true -> NoDup l.
+  Proof.
+    induction l as [|a r IH]; intros H; [constructor|]. cbn [nodupb] in H. apply andb_true_iff in H as [H1 H2].
+    constructor; [|apply IH; exact H2]. intros Hin. apply negb_true_iff in H1.
+    assert (E : existsb (bytes_eqb a) r = true) by (apply existsb_exists; exists a; split; [exact Hin|apply bytes_eqb_refl]).
+    congruence.
+  Qed.
+
+  Fixpoint ws_checkb (fuel : nat) (t : ty) (d : jdoc) : bool :=
+    match fuel with
+    | 0 => false
+    | S f =>
+        match t with
+        | TPrim p => is_ok (tprim' p d)
+        | TEnum _ => is_ok (tstring' d)
+        | TFixed n => match tstring' d with Ok b => Nat.eqb (length b) n | _ => false end
+        | TArray t' => match d with JNull => true | JArr items => forallb (ws_checkb f t') items | _ => false end
+        | TMap t' =>
+            match d with
+            | JNull => true
+            | JObj es => nodupb (map fst es) && forallb (fun kx => is_null (snd kx) || ws_checkb f t' (snd kx)) es
+            | _ => false
+            end
+        | TRef n =>
+            match lookup e n with
+            | Some (DRecord _ _) =>
+                match obj_entries d with
+                | Some es =>
+                    nodupb (map fst es) &&
+                    forallb (fun fd => match present es (f_name fd) with Some x => ws_checkb f (f_ty fd) x | None => true end)
+                            (fields_of e n)
+                | None => false
+                end
+            | Some (DUnion nullable ms) =>
+                match obj_entries d with
+                | Some es =>
+                    nodupb (map fst es) &&
+                    match filter (fun kx => negb (is_null (snd kx))) es with
+                    | [] => nullable
+                    | [kx] => match assoc_ty (fst kx) ms with Some mt => ws_checkb f mt (snd kx) | None => false end
+                    | _ => false
+                    end
+                | None => false
+                end
+            | None => false
+            end
+        end
+    end.
+
+  Theorem ws_checkb_sound : forall fuel t d, ws_checkb fuel t d = true -> well_shaped_t fuel t d.
+  Proof.
+    induction fuel as [|f IH]; intros t d H; [discriminate|].
+    destruct t as [p|syms|sz|n|t'|t']; cbn [ws_checkb well_shaped_t ws_step] in *.
+    - destruct (tprim' p d) as [v|x|]; try discriminate. exists v. reflexivity.
+    - destruct (tstring' d) as [v|x|]; try discriminate. exists v. reflexivity.
+    - destruct (tstring' d) as [v|x|]; try discriminate. exists v. split; [reflexivity|apply Nat.eqb_eq; exact H].
+    - destruct (lookup e n) as [[incs fs|nullable ms]|]; try discriminate.
+      + destruct (obj_entries d) as [es|]; try discriminate. apply andb_true_iff in H as [H1 H2].
+        exists es. split; [reflexivity|]. split; [apply nodupb_sound; exact H1|].
+        apply Forall_forall. intros fd Hin. rewrite forallb_forall in H2. specialize (H2 fd Hin).
+        destruct (present es (f_name fd)); [apply IH; exact H2|exact I].
+      + destruct (obj_entries d) as [es|]; try discriminate. apply andb_true_iff in H as [H1 H2].
+        exists es. split; [reflexivity|]. split; [apply nodupb_sound; exact H1|]. unfold ws_union.
+        destruct (filter (fun kx => negb (is_null (snd kx))) es) as [|kx [|kx2 r]]; try discriminate; [exact H2|].
+        destruct (assoc_ty (fst kx) ms) as [mt|]; try discriminate. exists mt. split; [reflexivity|apply IH; exact H2].
+    - destruct d; try discriminate; [exact I|]. apply Forall_forall. intros x Hin. apply IH.
+      rewrite forallb_forall in H. apply H. exact Hin.
+    - destruct d; try discriminate; [exact I|]. apply andb_true_iff in H as [H1 H2]. split; [apply nodupb_sound; exact H1|].
+      apply Forall_forall. intros kx Hin Hn. rewrite forallb_forall in H2. specialize (H2 kx Hin). rewrite Hn in H2.
+      apply IH. exact H2.
+  Qed.
 End ExactT.
 
 (* ---- permuting the members of any object at any depth ---- *)
@@ -1353,6 +1427,124 @@ Section Transfer.
   Qed.
 End Transfer.
 
+(* ---- the trees cover the writer's output: the rendering (Codec/Render.v render_ror2, ror2_writer.go) of any document tree is
+   the rendering of an rdoc with well-formed tokens; so everything above applies to what the encoder emits (C01) ---- *)
+Section WriterOutput.
+  Variable fmtF : bool -> N -> bytes.
+  Variable fl : flavour.
+  Hypothesis fmtF_nonempty : forall is32 b, fmtF is32 b <> [].
+
+  Local Notation Rw := (render_ror2 fmtF v2_hex_chars v2_unescaped_path_chars v2_unescaped_query_chars v2_header_escaped_chars
+                          v2_empty_string v2_list_prefix fl).
+  Local Notation Rleafw := (ror2_leaf fmtF v2_hex_chars v2_unescaped_path_chars v2_unescaped_query_chars v2_header_escaped_chars
+                              v2_empty_string fl).
+
+  Fixpoint r_of_doc (d : doc) : rdoc :=
+    match d with
+    | DLeaf l => RLeaf (Rleafw l)
+    | DArr items => RArr (map r_of_doc items)
+    | DObj ents => RObj (map (fun kx => let '(k, x) := kx in (k, r_of_doc x)) ents)
+    end.
+
+  Theorem render_r_of_doc : forall d, render_r fl (r_of_doc d) = Rw d /\ toks_ok (r_of_doc d).
+  Proof.
+    induction d as [l|ds IH|ents IH] using doc_ind'.
+    - split; [reflexivity|]. exact (leaf_tok fmtF fl fmtF_nonempty l).
+    - split.
+      + rewrite render_arr. cbn [r_of_doc render_r]. do 3 f_equal. rewrite map_map. apply map_ext_in. intros x Hx.
+        rewrite Forall_forall in IH. apply (IH x Hx).
+      + cbn [r_of_doc]. apply toks_ok_arr. apply Forall_forall. intros x Hx. apply in_map_iff in Hx as [y [<- Hy]].
+        rewrite Forall_forall in IH. apply (IH y Hy).
+    - split.
+      + rewrite render_obj. cbn [r_of_doc render_r]. do 3 f_equal. rewrite map_map. apply map_ext_in. intros [k x] Hx.
+        rewrite Forall_forall in IH. cbn [entR]. do 2 f_equal. apply (IH (k, x) Hx).
+      + cbn [r_of_doc]. apply toks_ok_obj. apply Forall_forall. intros kx Hx. apply in_map_iff in Hx as [[k y] [<- Hy]].
+        rewrite Forall_forall in IH. apply (IH (k, y) Hy).
+  Qed.
+End WriterOutput.
+
+(* ---- C13 for ROR2 input: the own slots of a decoded record (the analogue of DefaultsProofs.own_slots).  An absent field declared
+   [Default lit] holds the JSON decoding of the literal (DefaultsProofs.lit_value: the SAME function as for JSON input), unless
+   the record is the one that raises at the start of the input; a present field holds the decoded ROR2 value ---- *)
+Section DefaultsT.
+  Variable e : env.
+  Variables (wildcard : bytes) (ignore : nat).
+  Variable parseF : nat -> bytes -> option N.
+  Variable unesc : bytes -> option bytes.
+  Variable empty_marker : bytes.
+  Hypothesis Hwf : wf_schema e.
+
+  Notation dspec := (decode_spec_t e wildcard ignore parseF unesc empty_marker).
+  Notation decTj' := (decTj e wildcard ps_empty ignore parseF unesc empty_marker).
+  Notation mix f := (mixDJ e wildcard ps_empty ignore parseF (decTj' f false) f).
+
+  Definition own_slot_spec_t (f : nat) (filled : bool) (es : list (bytes * jdoc)) (fd : field) : option value :=
+    match present es (f_name fd) with
+    | Some x => Some (dspec f false (f_ty fd) x)
+    | None =>
+        match f_opt fd with
+        | Required => Some (zero_value e (S (length e)) (f_ty fd))
+        | Optional => None
+        | Default lit => if filled then DefaultsProofs.lit_value e wildcard ignore parseF f (f_ty fd) lit else None
+        end
+    end.
+
+  Lemma own_slots_t n incs fs f (raising : bool) d : lookup e n = Some (DRecord incs fs) ->
+    exists ivs fvs,
+      dspec (S f) raising (TRef n) d = VRec ivs fvs /\ length fvs = length fs /\
+      forall j fd, nth_error fs j = Some fd ->
+        nth_error fvs j = Some (own_slot_spec_t f (negb raising) (entries_of d) fd).
+  Proof.
+    intros Hn. destruct (Hwf n incs fs Hn) as [_ HndF].
+    cbn [decode_spec_t val_step]. rewrite Hn. cbn [rec_upd zero_value]. rewrite Hn.
+    set (look := look_of e (dspec f false) n (entries_of d)).
+    set (zs := fun fd : field => if is_required (f_opt fd) then Some (zero_value e (S (length e)) (f_ty fd)) else None).
+    set (ivs := map2 _ incs _).
+    assert (Hslot : forall j fd, nth_error fs j = Some fd ->
+              nth_error (map2 (slot_upd look) fs (map zs fs)) j =
+              Some (match present (entries_of d) (f_name fd) with
+                    | Some x => Some (dspec f false (f_ty fd) x)
+                    | None => zs fd
+                    end)).
+    { intros j fd Hj. rewrite nth_error_map2_map, Hj. simpl. f_equal. unfold slot_upd, look, look_of.
+      destruct (present (entries_of d) (f_name fd)) as [x|]; [|reflexivity].
+      rewrite field_of_eq. rewrite (find_unique (f_name fd) (fields_of e n) fd HndF); [reflexivity| |reflexivity].
+      unfold fields_of. cbn [all_fields]. rewrite Hn. apply in_or_app. right. apply nth_error_In in Hj. exact Hj. }
+    assert (Hlen : length (map2 (slot_upd look) fs (map zs fs)) = length fs).
+    { rewrite map2_length; rewrite map_length; reflexivity. }
+    destruct (raising || negb (own_has_default fs)) eqn:Eb.
+    - exists ivs, (map2 (slot_upd look) fs (map zs fs)). split; [reflexivity|]. split; [exact Hlen|].
+      intros j fd Hj. rewrite (Hslot j fd Hj). f_equal. unfold own_slot_spec_t.
+      destruct (present (entries_of d) (f_name fd)); [reflexivity|]. unfold zs.
+      destruct (f_opt fd) as [| |lit] eqn:Eo; simpl; try reflexivity.
+      destruct raising; simpl; [reflexivity|]. simpl in Eb. apply negb_true_iff in Eb. exfalso.
+      unfold own_has_default in Eb. apply nth_error_In in Hj.
+      assert (Hex : existsb (fun fd => has_default (f_opt fd)) fs = true)
+        by (apply existsb_exists; exists fd; split; [exact Hj|rewrite Eo; reflexivity]).
+      congruence.
+    - apply orb_false_iff in Eb as [-> _]. simpl negb.
+      exists ivs, (fill_defaultsS (mix f) fs (map2 (slot_upd look) fs (map zs fs))).
+      split; [reflexivity|]. split; [rewrite DefaultsProofs.fill_length; exact Hlen|].
+      intros j fd Hj. rewrite (nth_error_fill (mix f) fs _ j Hlen), Hj, (Hslot j fd Hj). f_equal.
+      unfold fill_slot, own_slot_spec_t. destruct (present (entries_of d) (f_name fd)); [reflexivity|]. unfold zs.
+      destruct (f_opt fd) as [| |lit]; simpl; reflexivity.
+  Qed.
+End DefaultsT.
+
+(* on ROR2 input, through either reader: the value returned by decode_ror2 (ror2_decode_exact) is [ror2_value fuel raising t d]
+   with raising = "NewRor2Reader, and some path is missing"; its own slots *)
+Theorem ror2_own_slots : forall e wildcard ignore parseF fl, wf_schema e ->
+  forall n incs fs f raising d, lookup e n = Some (DRecord incs fs) ->
+  exists ivs fvs,
+    ror2_value e wildcard ignore parseF fl (S f) raising (TRef n) d = VRec ivs fvs /\ length fvs = length fs /\
+    forall j fd, nth_error fs j = Some fd ->
+      nth_error fvs j = Some (own_slot_spec_t e wildcard ignore parseF (unescape (plus_of fl)) v2_empty_string f (negb raising)
+                                (entries_of (j_of_r d)) fd).
+Proof.
+  intros e wildcard ignore parseF fl Hwf n incs fs f raising d Hn. unfold ror2_value.
+  apply (own_slots_t e wildcard ignore parseF (unescape (plus_of fl)) v2_empty_string Hwf n incs fs f raising (j_of_r d) Hn).
+Qed.
+
 Lemma wf_rdoc_toks d : wf_rdoc d -> toks_ok d.
 Proof. intros [H _]. exact H. Qed.
 
@@ -1380,22 +1572,6 @@ Definition r06_doc_perm : rdoc :=
          (c06_b "b", r06_leaf "s%20t");
          (c06_b "l", RArr [RObj [(c06_b "a", r06_leaf "1")]; RObj [(c06_b "c", r06_leaf "3")]]) ].
 
-Ltac r06_ws :=
-  repeat first
-    [ progress simpl
-    | match goal with
-      | |- exists _, _ => eexists
-      | |- _ /\ _ => split
-      | |- NoDup _ => simpl; c06_nd
-      | |- Forall _ _ => constructor
-      | |- _ = _ => vm_compute; reflexivity
-      | |- True => exact I
-      | |- _ -> _ => intro
-      | |- ws_union _ _ _ _ => unfold ws_union; simpl
-      | |- match present ?a ?b with _ => _ end =>
-          let v := eval vm_compute in (present a b) in change (present a b) with v; cbv iota beta
-      end ].
-
 Lemma r06_render : forall fl, render_r fl r06_doc = c06_b r06_text.
 Proof. intros []; vm_compute; reflexivity. Qed.
 
@@ -1407,7 +1583,7 @@ Proof.
 Qed.
 
 Lemma r06_ws_doc : forall fl, ror2_well_shaped c06_env c06_pf fl 8 (TRef 1) r06_doc.
-Proof. intros fl. unfold ror2_well_shaped, r06_doc. destruct fl; r06_ws. Qed.
+Proof. intros fl. unfold ror2_well_shaped. apply ws_checkb_sound. destruct fl; vm_compute; reflexivity. Qed.
 
 Lemma r06_scope : scope_ok None r06_doc.
 Proof. cbn. repeat (constructor; [discriminate|]). constructor. Qed.
@@ -1425,3 +1601,114 @@ Lemma ror2_missing_example : forall fl,
           Some (VUnion [Some (VRec [] [Some (VInt 0); Some (VStr []); Some (VInt 7)]); None])])
   /\ sort_bytes (ror2_missing c06_env 8 (TRef 1) r06_doc []) = List.map c06_b ["a"; "l[1].a"; "m.k.a"; "u.t.Inner.a"; "x"]%list.
 Proof. intros []; vm_compute; split; reflexivity. Qed.
+
+(* the hypotheses of the theorems are satisfiable together (a tree with an unknown member of nested shape, five missing paths at
+   four kinds of position); permuting members at two depths and dropping the unknown member changes nothing; the query-parameter
+   reader records the same paths below the parameter name and fills the defaults *)
+Lemma ror2_nonvacuous : forall fl,
+  wf_schema c06_env /\ is_record c06_env (TRef 1) = true /\ wf_rdoc r06_doc /\ rsize r06_doc <= 40 /\
+  ror2_well_shaped c06_env c06_pf fl 8 (TRef 1) r06_doc /\ scope_ok None r06_doc /\
+  render_r fl r06_doc = c06_b r06_text /\
+  sort_bytes (ror2_missing c06_env 8 (TRef 1) r06_doc []) = List.map c06_b ["a"; "l[1].a"; "m.k.a"; "u.t.Inner.a"; "x"]%list /\
+  (exists v, decode_ror2 c06_env c06_star ps_empty 0 c06_pf (unescape (plus_of fl)) v2_empty_string v2_list_prefix false 40 None
+               (TRef 1) (render_r fl r06_doc)
+             = DMissing (List.map c06_b ["a"; "l[1].a"; "m.k.a"; "u.t.Inner.a"; "x"]%list) v) /\
+  decode_ror2 c06_env c06_star ps_empty 0 c06_pf (unescape (plus_of fl)) v2_empty_string v2_list_prefix false 40 None
+    (TRef 1) (render_r fl r06_doc_perm)
+  = decode_ror2 c06_env c06_star ps_empty 0 c06_pf (unescape (plus_of fl)) v2_empty_string v2_list_prefix false 40 None
+      (TRef 1) (render_r fl r06_doc) /\
+  (exists v, decode_ror2 c06_env c06_star ps_empty 0 c06_pf (unescape (plus_of fl)) v2_empty_string v2_list_prefix true 40
+               (Some (c06_b "p")) (TRef 1) (render_r fl r06_doc)
+             = DMissing (List.map c06_b ["p.a"; "p.l[1].a"; "p.m.k.a"; "p.u.t.Inner.a"; "p.x"]%list) v).
+Proof.
+  intros fl. split; [exact c06_wf|]. split; [reflexivity|]. split; [exact r06_wf_doc|]. split; [vm_compute; lia|].
+  split; [apply r06_ws_doc|]. split; [exact r06_scope|]. split; [apply r06_render|].
+  split; [vm_compute; reflexivity|]. split; [|split].
+  - eexists. destruct fl; vm_compute; reflexivity.
+  - destruct fl; vm_compute; reflexivity.
+  - eexists. destruct fl; vm_compute; reflexivity.
+Qed.
+
+(* ---- the unrestricted statements, false for ROR2 exactly as for JSON ---- *)
+(* [ror2_missing_exact] without "t is a record" (finding D33) *)
+Definition ror2_missing_exact_full : Prop :=
+  forall e wildcard ignore parseF fl, wf_schema e ->
+  forall fuel t d, toks_ok d -> rsize d <= fuel -> ror2_well_shaped e parseF fl fuel t d -> scope_ok None d ->
+    decode_ror2 e wildcard ps_empty ignore parseF (unescape (plus_of fl)) v2_empty_string v2_list_prefix false fuel None t
+      (render_r fl d) =
+    match ror2_missing e fuel t d [] with
+    | [] => DOk (ror2_value e wildcard ignore parseF fl fuel false t d)
+    | ms => DMissing (sort_bytes ms) (ror2_value e wildcard ignore parseF fl fuel true t d)
+    end.
+
+Definition r06_arr : rdoc := RArr [RObj []; RObj [(c06_b "a", r06_leaf "1")]].     (* List((),(a:1)) *)
+
+Lemma ror2_top_level_non_record_witness :
+  render_r FPath r06_arr = c06_b "List((),(a:1))" /\
+  decode_ror2 c06_env c06_star ps_empty 0 c06_pf (unescape false) v2_empty_string v2_list_prefix false 8 None (TArray (TRef 0))
+    (c06_b "List((),(a:1))")
+  = DOk (VArr [VRec [] [Some (VInt 0); None; Some (VInt 7)]; VRec [] [Some (VInt 1); None; Some (VInt 7)]])
+  /\ ror2_missing c06_env 8 (TArray (TRef 0)) r06_arr [] = [c06_b "[0].a"].
+Proof. vm_compute. repeat split; reflexivity. Qed.
+
+Theorem ror2_missing_exact_full_refuted : ~ ror2_missing_exact_full.
+Proof.
+  intros H. specialize (H c06_env c06_star 0 c06_pf FPath c06_wf 8 (TArray (TRef 0)) r06_arr).
+  assert (Hok : toks_ok r06_arr).
+  { cbn. unfold tokfree4. repeat split; try discriminate. intros d [<-|[<-|[<-|[<-|[]]]]]; reflexivity. }
+  assert (Hw : ror2_well_shaped c06_env c06_pf FPath 8 (TArray (TRef 0)) r06_arr) by (unfold ror2_well_shaped; apply ws_checkb_sound; vm_compute; reflexivity).
+  specialize (H Hok ltac:(vm_compute; lia) Hw ltac:(constructor)). vm_compute in H. discriminate.
+Qed.
+
+(* [ror2_decode_exact] without [scope_ok]: below the lone empty key '' at the start of the input the dot is dropped *)
+Definition ror2_paths_exact_full : Prop :=
+  forall e wildcard ignore parseF fl, wf_schema e ->
+  forall fuel t d v s, toks_ok d -> rsize d <= fuel -> ror2_well_shaped e parseF fl fuel t d ->
+    decR e wildcard ps_empty ignore parseF (unescape (plus_of fl)) v2_empty_string v2_list_prefix false fuel t
+      (rinit (render_r fl d) tracker0) = Ok (v, s) ->
+    Permutation (t_missing (r_tr s)) (ror2_missing e fuel t d []).
+
+Definition r06_empty_key : rdoc := RObj [([], RObj [])].     (* ('':()) *)
+
+Lemma ror2_empty_key_witness :
+  render_r FPath r06_empty_key = c06_b "('':())" /\
+  decR c06_env c06_star ps_empty 0 c06_pf (unescape false) v2_empty_string v2_list_prefix false 8 (TMap (TRef 0))
+    (rinit (c06_b "('':())") tracker0)
+  = Ok (VMap [([], VRec [] [Some (VInt 0); None; Some (VInt 7)])], cur true [] {| t_scope := []; t_missing := [c06_b "a"] |})
+  /\ ror2_missing c06_env 8 (TMap (TRef 0)) r06_empty_key [] = [c06_b ".a"].
+Proof. vm_compute. repeat split; reflexivity. Qed.
+
+Theorem ror2_paths_exact_full_refuted : ~ ror2_paths_exact_full.
+Proof.
+  intros H.
+  assert (Hw : ror2_well_shaped c06_env c06_pf FPath 8 (TMap (TRef 0)) r06_empty_key) by (unfold ror2_well_shaped; apply ws_checkb_sound; vm_compute; reflexivity).
+  specialize (H c06_env c06_star 0 c06_pf FPath c06_wf 8 (TMap (TRef 0)) r06_empty_key _ _ ltac:(exact (conj I I))
+                ltac:(vm_compute; lia) Hw (proj1 (proj2 ror2_empty_key_witness))).
+  vm_compute in H. apply Permutation_length_1_inv in H. discriminate.
+Qed.
+
+(* after an array item / map entry of a rendered sequence: ',' continues with the remaining members, ')' ends *)
+Lemma read_after_seq (r : list bytes) rest tr :
+  read_after (cur true (seq_tail r rest) tr)
+  = Ok (match r with [] => Done (cur true rest tr) | _ => Continue (cur true (seq_r r rest) tr) end).
+Proof. destruct r; reflexivity. Qed.
+
+(* R3 on concrete inputs, both sides computed independently: a union with two members (both readers stop with the union error at
+   the second member), a string where a record is expected, a composite where an int is expected, and a value followed by more
+   input (the cursor lands exactly after the rendering) *)
+Lemma ror2_refines_example :
+  let dR := decR c06_env c06_star ps_empty 0 c06_pf (unescape false) v2_empty_string v2_list_prefix false 8 in
+  let dT := decT c06_env c06_star ps_empty 0 c06_pf (unescape false) v2_empty_string 8 in
+  let two := RObj [(c06_b "int", r06_leaf "1"); (c06_b "t.Inner", RObj [])] in
+  let more := c06_b ",x:1)" in
+  dR (TRef 2) (rinit (render_r FPath two) tracker0) = Err EUnion /\ dT true (TRef 2) two tracker0 = Err EUnion /\
+  dR (TRef 0) (rinit (render_r FPath (r06_leaf "abc")) tracker0) = Err EDeser /\ dT true (TRef 0) (r06_leaf "abc") tracker0 = Err EDeser /\
+  dR (TPrim PInt) (cur true (render_r FPath r06_arr ++ more)%list tracker0) = Err EDeser /\
+  dT false (TPrim PInt) r06_arr tracker0 = Err EDeser /\
+  dR (TArray (TRef 0)) (cur true (render_r FPath r06_arr ++ more)%list tracker0)
+  = Ok (VArr [VRec [] [Some (VInt 0); None; Some (VInt 7)]; VRec [] [Some (VInt 1); None; Some (VInt 7)]],
+        cur true more {| t_scope := []; t_missing := [c06_b "[0].a"] |}) /\
+  dT false (TArray (TRef 0)) r06_arr tracker0
+  = Ok (VArr [VRec [] [Some (VInt 0); None; Some (VInt 7)]; VRec [] [Some (VInt 1); None; Some (VInt 7)]],
+        {| t_scope := []; t_missing := [c06_b "[0].a"] |}).
+Proof. vm_compute. repeat split; reflexivity. Qed.
